@@ -37,6 +37,8 @@ value = st.one_of(
     st.builds(lambda v: {"t": "bytes", "v": v}, st.sampled_from(["", "00", "61", "6100", "ff00fe", "7f00", "007f", "7f7f"])),
     st.builds(lambda v: {"t": "void", "v": v}, st.sampled_from(["00", "61", "6100", "0000", "ff00fe00", "7f00", "007f", "7f7f", "7e"])),
     st.builds(lambda v: {"t": "void", "v": v}, _hex.filter(lambda h: h not in ("", "7f"))),
+    # opaque scalars as 0-d arrays, including the deletion marker's own byte (refused loudly or stored visibly)
+    st.builds(lambda v: {"t": "void0", "v": v}, st.sampled_from(["7f", "7f", "7f00", "00", "61", "7e"])),
     st.builds(lambda v, dt: {"t": "arr", "dt": dt, "v": v},
               st.one_of(st.lists(st.integers(0, 9), max_size=3),
                         st.lists(st.lists(st.integers(0, 9), min_size=2, max_size=2), min_size=1, max_size=3)),
@@ -67,6 +69,8 @@ data_op = st.one_of(
     st.tuples(st.just("touch"), ref, st.integers(0, 3), small_value),
     st.tuples(st.just("copyinto"), ref, relpath),
     st.tuples(st.just("renamesfx"), ref, st.sampled_from(["b", ".old", "-1", "a", "_"]), st.booleans()),
+    st.tuples(st.just("revive"), ref, st.integers(0, 3), ref, small_value, st.one_of(st.none(), st.none(), seg)),
+    st.tuples(st.just("revive"), ref, st.integers(0, 3), ref, small_value, st.one_of(st.none(), st.none(), seg)),
 )
 boundary_op = st.one_of(
     st.just(("commit",)), st.just(("commit",)), st.just(("commit",)), st.just(("commit",)),
@@ -178,6 +182,32 @@ def bind(op, tree):
         if k2 == "copy":
             b["without_attrs"] = False
         return [b]
+    if kind == "revive":  # something new at (or below) a path that was deleted or moved away earlier
+        dead = [p for p in tree.dead if tree.lookup(p) is None]
+        pre, cand = [], nodes
+        if dead:
+            p = dead[op[1] % len(dead)]
+        elif nodes:  # nothing was deleted so far: delete some node first
+            p = nodes[op[1] % len(nodes)]
+            pre = [dict(op="del", recv="/", path=p[1:], abs=p, macro="revive")]
+            cand = [n for n in nodes if n != p and not n.startswith(p + "/")]
+        else:
+            return []
+        if op[5]:
+            p = p + "/" + op[5]
+        how = op[2]
+        if how >= 2 and not cand:
+            how = 0
+        if how == 0:
+            return pre + [dict(op="set", recv="/", path=p[1:], abs=p, v=storable(op[4]), macro="revive")]
+        if how == 1:
+            return pre + [dict(op="mkgrp", recv="/", path=p[1:], abs=p, macro="revive")]
+        src = cand[op[3] % len(cand)]
+        b = dict(op="move" if how == 2 else "copy", recv="/", src=src[1:], src_abs=src, dst=p[1:], dst_abs=p,
+                 macro="revive")
+        if how == 3:
+            b["without_attrs"] = False
+        return pre + [b]
     if kind == "replace":
         if not nodes:
             return []
@@ -456,7 +486,7 @@ def _touch_paths(b):
     return []
 
 
-DATA_KINDS = {"set", "mkgrp", "del", "setattr", "delattr", "copy", "move", "copyinto", "replace", "touch", "renamesfx"}
+DATA_KINDS = {"set", "mkgrp", "del", "setattr", "delattr", "copy", "move", "copyinto", "replace", "touch", "renamesfx", "revive"}
 
 
 class Session:
@@ -553,6 +583,7 @@ class Session:
                 ok_model = True
             except OpFails:
                 ok_model = False
+            marker = isinstance(b.get("v"), dict) and b["v"].get("t") in ("void", "void0") and b["v"].get("v") == "7f"
             nnodes = len(before.paths()) + 5
             err = None
             try:
@@ -569,6 +600,11 @@ class Session:
             out.n_ops += 1
             out.bound.append(b)
             k = self.cidx()
+            if marker and ok_model and not ok_real and "forbidden" in (err or ""):
+                # the reserved deletion-marker value: refusing it loudly is the documented IH5 behaviour
+                self.tree = before
+                ok_model = False
+                out.classes.add("deletion_marker_value_refused")
             if ok_real != ok_model:
                 what = "fails" if ok_model else "succeeds"
                 raise Violation(f"{self.sig}:op-{what}:{b['op']}" + (f":{b['macro']}" if b.get("macro") else ""),
@@ -632,6 +668,8 @@ def _classify(out, b, before, tree, k, created_in, replaced_in, ever, attr_set_i
     if b.get("into_self") or (o == "copy" and b["dst_abs"].startswith(b["src_abs"] + "/")):
         out.classes.add("copy_into_own_subtree")
     new_paths = []
+    if b.get("macro") == "revive" and o != "del":
+        out.classes.add("revive_dead_path_" + o)
     if o in ("set", "mkgrp"):
         new_paths = [p for p in _ancestors(b["abs"])[1:] + [b["abs"]] if before.lookup(p) is None]
     elif o in ("copy", "move"):
